@@ -684,4 +684,6 @@ def gen(tier, rng, boost=1):
     # the text validators on arbitrary strings
     ops += gen_phone(tier, rng, boost)
     ops += gen_email(tier, rng, boost)
+    # the same loads through the std::istream overload of LoadObject (every 4th val.load op)
+    ops += ["val.loads" + o[len("val.load"):] for i, o in enumerate(list(ops)) if o.startswith("val.load ") and i % 4 == 0]
     return ops
